@@ -127,6 +127,11 @@ def engine_level(ctx):
                                                             preset=bool(sc_.get("sid"))),
                              "%s session_id after the exchange %s, expected %s (first exchange hash)"
                              % (who, L.final_sid(text_), want_sid))
+            if L.final_host_key(ctext) != hx(vals["ks"]):
+                ctx.fail("remote-server-key-not-the-one-verified:engine-level",
+                         dict(case, previous_host_key=None if not c.get("hk0") else c["hk0"].hex()),
+                         "after the completed exchange transport.host_key is %s, the key shown and verified was %s"
+                         % (L.final_host_key(ctext), hx(vals["ks"])))
             if hc[0] != hs[0]:
                 ctx.fail("hash-input-differs-between-roles:" + L.family(c), case,
                          "client hashed %s, server hashed %s" % (hc[0].hex(), hs[0].hex()))
@@ -796,6 +801,114 @@ def e2e_rogue_key_type(ctx, kex, negotiated, shown, label, hash_name):
         e.close()
 
 
+def host_key_publication_facts(ctx):
+    """source facts the model's `publishedKey` rests on: `self.host_key` is assigned in exactly two places of
+    transport.py — `__init__` (None) and `_verify_key`, there as a TOP-LEVEL statement of the function (under no
+    `if`), after the call of verify_ssh_sig, with the freshly parsed key — and get_remote_server_key reads it."""
+    import ast
+    import os
+    from pv.core import REPO
+
+    src = open(os.path.join(REPO, "paramiko", "transport.py"), encoding="utf-8").read()
+    tree = ast.parse(src)
+    sites = []
+    for fn in ast.walk(tree):
+        if isinstance(fn, (ast.FunctionDef, ast.AsyncFunctionDef)):
+            for node in ast.walk(fn):
+                targets = node.targets if isinstance(node, ast.Assign) else [node.target] if isinstance(node, (ast.AugAssign, ast.AnnAssign)) else []
+                for t in targets:
+                    for tt in ast.walk(t):
+                        if isinstance(tt, ast.Attribute) and tt.attr == "host_key" and isinstance(tt.value, ast.Name) and tt.value.id == "self":
+                            sites.append((fn.name, node))
+    names = sorted({f for f, _ in sites})
+    if names != ["__init__", "_verify_key"]:
+        ctx.disagree("host_key-assignment-sites", {}, ["__init__", "_verify_key"], names)
+    vk = next((f for f in ast.walk(tree) if isinstance(f, ast.FunctionDef) and f.name == "_verify_key"), None)
+    if vk is None:
+        ctx.disagree("host_key-assignment-sites", {}, "_verify_key exists", "missing")
+        return
+    top = [n for n in vk.body if isinstance(n, ast.Assign) and any(
+        isinstance(t, ast.Attribute) and t.attr == "host_key" for t in n.targets)]
+    nested = [n for f, n in sites if f == "_verify_key" and n not in vk.body]
+    if len(top) != 1 or nested or vk.body[-1] is not top[0] if top else True:
+        ctx.disagree("host_key-assignment-is-conditional", {}, "one unconditional assignment, last statement of _verify_key",
+                     "top-level: %d, nested: %d" % (len(top), len(nested)))
+    elif not (isinstance(top[0].value, ast.Name) and top[0].value.id == "key"):
+        ctx.disagree("host_key-assigned-value", {}, "key", ast.unparse(top[0].value))
+    grk = next((f for f in ast.walk(tree) if isinstance(f, ast.FunctionDef) and f.name == "get_remote_server_key"), None)
+    if grk is None or "self.host_key" not in ast.unparse(grk):
+        ctx.disagree("get_remote_server_key-source", {}, "returns self.host_key", "does not read self.host_key")
+    ctx.dist("source:host_key-publication-facts")
+
+
+def e2e_rekey_changed_key(ctx, kex, plan_name):
+    """re-exchanges in which the server presents ANOTHER host key than before (another type because the client's
+    preference changed, or a rotated key of the same type), each with a valid signature.  After EVERY exchange:
+    the key the client reports is the key it was shown in THAT exchange, and the signature it was shown verifies
+    under that key over that exchange's H (independent check with a fresh key object)."""
+    import paramiko
+    from cryptography.hazmat.primitives.asymmetric import ec
+    from paramiko.message import Message
+
+    ecdsa, rsa, ed = L.host_key("ecdsa256"), L.host_key("rsa"), L.host_key("ed25519")
+    rotated = paramiko.ECDSAKey.generate(curve=ec.SECP256R1())
+    e = L.E2E(kex, ecdsa)
+    e.ts.add_server_key(rsa)
+    e.ts.add_server_key(ed)
+    shown = []
+    orig_vk = e.tc._verify_key
+
+    def vk(host_key, sig):
+        orig_vk(host_key, sig)
+        shown.append((bytes(host_key), bytes(sig), bytes(e.tc.H)))
+
+    e.tc._verify_key = vk
+    # (client preference for the next exchange, server-side key rotation, key the server must then show)
+    plans = {"types": [(["ecdsa-sha2-nistp256"], None, ecdsa), (["rsa-sha2-512"], None, rsa), (["ssh-ed25519"], None, ed),
+                       (["ecdsa-sha2-nistp256"], None, ecdsa)],
+             "rotation": [(["ecdsa-sha2-nistp256"], None, ecdsa), (["ecdsa-sha2-nistp256"], rotated, rotated),
+                          (["ecdsa-sha2-nistp256"], ecdsa, ecdsa)],
+             "mixed": [(["ssh-ed25519"], None, ed), (["ecdsa-sha2-nistp256"], rotated, rotated), (["rsa-sha2-256"], None, rsa)]}
+    case = {"kex": kex, "plan": plan_name}
+    classes = {b"ssh-rsa": paramiko.RSAKey, b"ecdsa-sha2-nistp256": paramiko.ECDSAKey, b"ssh-ed25519": paramiko.Ed25519Key}
+    try:
+        for i, (prefs, rotate, expect) in enumerate(plans[plan_name]):
+            e.tc.get_security_options().key_types = prefs
+            if rotate is not None:
+                e.ts.server_key_dict[rotate.get_name()] = rotate
+            if i == 0:
+                err = e.handshake(timeout=60)
+            else:
+                try:
+                    e.tc.renegotiate_keys()
+                    err = None
+                except Exception as ex:
+                    err = ex
+            step = dict(case, exchange=i + 1, client_prefers=prefs, rotated=rotate is not None)
+            if err is not None or not e.wait_logs(i + 1):
+                ctx.disagree("e2e-exchange-with-changed-host-key-failed", step, "completes", repr(err))
+                return
+            ctx.case(("e2e-rekey-changed-key", kex, plan_name, i), i > 0)
+            ctx.dist("e2e-rekey-changed-key:%s:exchange%d" % (plan_name, i + 1))
+            if len(shown) != i + 1:
+                ctx.fail("exchange-completed-without-verify_key", step, "%d _verify_key calls after %d exchanges" % (len(shown), i + 1))
+                return
+            blob, sig, H = shown[-1]
+            if blob != expect.asbytes():
+                ctx.disagree("server-showed-unexpected-key", step, expect.get_name(), blob[:24].hex())
+            kind = L.split_fields(b"\x00" + blob, "s")[0]
+            ok = classes[kind](data=blob).verify_ssh_sig(H, Message(sig))
+            if not ok:
+                ctx.fail("signature-over-H-does-not-verify:rekey", step, "the signature shown does not verify under the key shown")
+            reported = e.tc.get_remote_server_key()
+            if reported is None or reported.asbytes() != blob:
+                ctx.fail("remote-server-key-not-the-one-verified", step,
+                         "exchange %d: the client was shown (and verified) a %s key but get_remote_server_key() reports %s"
+                         % (i + 1, kind.decode(), None if reported is None else reported.get_name() + " " + reported.asbytes()[-8:].hex()))
+    finally:
+        e.close()
+
+
 def end_to_end(ctx):
     rng = ctx.rng
     if ctx.thorough:
@@ -868,6 +981,11 @@ def end_to_end(ctx):
     for i, (X, Y, label, hname) in enumerate(rogue):
         for kex in (kexes if ctx.thorough else [kexes[i % len(kexes)]]):
             e2e_rogue_key_type(ctx, kex, X, Y, label, hname)
+    # re-exchanges with a CHANGED host key (valid signatures): the reported key follows every exchange
+    kx = ["c25519", "nistp256", "group14-256", "gex256", "group16", "nistp521"]
+    for i, plan_name in enumerate(["types", "rotation", "mixed"]):
+        for kex in (kx if ctx.thorough else [kx[(i + ctx.seed) % len(kx)], kx[(i + 3 + ctx.seed) % len(kx)]]):
+            e2e_rekey_changed_key(ctx, kex, plan_name)
     # the same on a re-exchange (host key unchanged)
     rfields = ["signature", "value", "replayed-signature"]
     if ctx.thorough:
@@ -969,6 +1087,9 @@ def run(ctx):
                 "with real RSA host keys, judged by an independent `cryptography` verifier of the field as received; a rogue server showing an ECDSA key "
                 "of another curve (or an Ed25519 key) than negotiated, signature labelled as negotiated, with either hash, "
                 "and the converse relabelings; at engine level the toy verification runs through the REAL Transport._verify_key), the same edits (signature, value, replayed first signature) on a RE-exchange with the same host key. "
+                "re-exchanges with a CHANGED server key (another type after a change of the client's preference, a rotated key "
+                "of the same type, mixed; valid signatures) with the reported key and an independent signature check after "
+                "every exchange; engine scenarios run with no / the same / another host key already on record. "
                 "Transport.connect over all 64 option combinations x 2 server key types (hostkey absent / same / "
                 "other of the same type / other type; pkey, password, gss_auth, gss_kex) with recording auth_* "
                 "methods. distinct = distinct (engine, role, packets) / (kex, algorithm, edit); non-trivial = a complete "
@@ -982,6 +1103,7 @@ def run(ctx):
     engine_level(ctx)
     real_point_encoding_oracle(ctx)
     set_k_h_level(ctx)
+    host_key_publication_facts(ctx)
     connect_level(ctx)
     end_to_end(ctx)
 
@@ -1007,7 +1129,12 @@ META = {
               "(first and re-exchanges, behind run()'s _expected_packet gate, any packet history); session_id = first H after any "
               "number of exchanges and is never changed by later traces; the hash input is injective in every field; "
               "an altered host key / f / signature makes the client raise before NEWKEYS; Transport.connect(hostkey=k) "
-              "raises whenever the key shown differs from k (unless GSS-API kex was requested), independently of "
+              "raises whenever the key shown differs from k (unless GSS-API kex was requested), independently of which "
+              "credentials were passed; the key published as the remote server key (Transport.host_key) after a completed "
+              "exchange is the key verified in THAT exchange, whatever key was on record before and whatever happened "
+              "earlier on the connection (published_key_is_verified_key, published_key_follows_every_exchange; source "
+              "fact checked every run: the only assignment outside __init__ is the unconditional last statement of "
+              "_verify_key). [connect:] raises whenever the key shown differs from k (unless GSS-API kex was requested), independently of "
               "which credentials were passed, and authenticates/returns only if the pin holds. Tied to the real engines by "
               "exact comparison of every transport call and every hashed byte string, every engine class, both roles, "
               "including a peer's point in its alternative valid encoding: the hash covers the octets AS RECEIVED (also "
